@@ -3,6 +3,7 @@ every token (ref.lines: presumed line/file as re-based by #line / linemarkers)."
 from ..ref import lex as rlex
 
 STYLES = ["single", "lines", "random", "minimal", "marked", "tabs"]
+# 'samepos': the same linemarker before every token, so that all tokens share one (file, line, column)
 
 
 class Layout:
@@ -59,7 +60,12 @@ def layout(toks, directive, style, rnd, filename="f.c", marker_p=0.12):
             prev = None
             continue
         # separator before token
-        if style == "marked" and rnd.random() < marker_p:
+        if style == "samepos":
+            fresh_line()
+            emit('# 7 "same.c"\n')
+            fname = "same.c"
+            line = 7
+        elif style == "marked" and rnd.random() < marker_p:
             fresh_line()
             r = rnd.random()
             nl = rnd.randrange(1, 900)
@@ -86,7 +92,7 @@ def layout(toks, directive, style, rnd, filename="f.c", marker_p=0.12):
         elif style == "tabs":
             emit(rnd.choice(["\t", "\t\t", " \t", "\n\t"]))
         elif style in ("random", "marked"):
-            emit(rnd.choice([" ", " ", "  ", "\n", "\t", " \t ", "\n\n   ", "\n  "]))
+            emit(rnd.choice([" ", " ", "  ", "\n", "\t", " \t ", "\n\n   ", "\n  ", "\n  \n", "\n\t\n\t", " \n \n ", "\n   \n\t \n  "]))
         elif style == "minimal":
             if not rlex.adjacent_ok(prev, t):
                 emit(" ")
